@@ -109,10 +109,24 @@ def doOpen (s : St) (route lst tgt early banner seedC seedT : String) : St × St
 
 def step (s : St) (toks : List String) : St × String :=
   match toks with
-  | ["unreach", route, lst] =>
-    if s.phase ≠ 0 ∨ (kindOf lst).isNone ∨ (route ≠ "direct" ∧ route ≠ "via") then (s, "bad-op") else
-    let o := handleConnect s.cfg .refused [] [] []
-    ({ s with phase := 2 }, s!"status {o.status} {if o.warning then "warning" else "nowarning"}")
+  | "unreach" :: route :: lst :: rest =>
+    -- phase 2 = a connection that has been answered 502 and is still served: further CONNECTs allowed
+    let k : Option DialErr := match rest with
+      | [] => some .refused
+      | [k] | [k, _] =>
+        if k = "refused" then some .refused else if k = "timeout" then some .timeout else if k = "eof" then some .eof
+        else if k = "dns" then some .dns else if k = "ctx" then some .ctxDeadline else if k = "other" then some .other else none
+      | _ => none
+    let whereOk := match rest with
+      | [_, w] => (w = "near" ∨ (w = "far" ∧ route = "via"))
+      | _ => true
+    match k with
+    | none => (s, "bad-op")
+    | some k =>
+      if (s.phase ≠ 0 ∧ s.phase ≠ 2) ∨ (kindOf lst).isNone ∨ (route ≠ "direct" ∧ route ≠ "via") ∨ !whereOk then (s, "bad-op") else
+      let o := handleConnect s.cfg (.failed k) [] [] []
+      -- kept: the next request on the connection is read
+      ({ s with phase := if o.kept then 2 else 3 }, s!"status {o.status} {if o.warning then "warning" else "nowarning"}")
   | ["open", route, lst, tgt, early, banner, seedC, seedT] => doOpen s route lst tgt early banner seedC seedT
   | ["open", route, lst, tgt, early, banner, seedC, seedT, _timeoutMs] =>
     -- the proxy's timeout is wall-clock: the model sees it only as the `deadline` event of op `outlive`
